@@ -90,8 +90,9 @@ type ReqSpec struct {
 	// Recycled: the request is parsed into a Request object that carried another request (with User-Agent, Content-Type,
 	// cookies, a body) and was Reset, as the server's context pool does on every connection
 	Recycled bool `json:"recycled,omitempty"`
-	// NoNorm: the server keeps header names as they were sent (WithDisableHeaderNamesNormalizing) and the client spells
-	// them in upper case; names are case-insensitive all the same
+	// NoNorm: the server keeps header names as they were sent (WithDisableHeaderNamesNormalizing); the client spells
+	// them exactly as the tag does (the pinned Test_BindHeaderNormalize wants tag and header to be "consistent" in
+	// that mode: another spelling is not bound, by decision of the maintainers)
 	NoNorm bool                           `json:"header_names_not_normalized,omitempty"`
 	Values map[string]map[string][]string `json:"values"` // field -> source -> texts
 }
@@ -398,9 +399,6 @@ func encode(fs []FieldSpec, r ReqSpec) ([]byte, param.Params) {
 			case "cookie":
 				cookies = append(cookies, key+"="+strings.NewReplacer(" ", "%20", "é", "e").Replace(texts[0]))
 			case "header":
-				if r.NoNorm {
-					key = strings.ToUpper(key)
-				}
 				headers = append(headers, key+": "+strings.ReplaceAll(texts[0], "é", "e"))
 			case "json":
 				jv := func(x string) string {
